@@ -171,6 +171,10 @@ func checkC17(e *core.Env) {
 						}
 					}
 					w := grpchan.InterceptClientConn(cur, ui, si)
+					if c17Entry++; c17Entry%2 == 0 {
+						// every other layer is added through the older name of the same function
+						w = grpchan.InterceptChannel(cur, ui, si)
+					}
 					wr, ok := w.(grpchan.WrappedClientConn)
 					if !ok {
 						e.Violate("wrap/not-wrapped", "InterceptClientConn with an interceptor did not return a WrappedClientConn: "+desc, desc)
@@ -388,6 +392,8 @@ func checkC17(e *core.Env) {
 	}
 	checkC17Foreign(e, realCC)
 }
+
+var c17Entry int
 
 // plainWrap is an application's own wrapper (metrics, retries, ...): it implements WrappedClientConn and nothing
 // else of the library.
